@@ -469,4 +469,35 @@ theorem unique_unique (xs : VList) :
   refine ⟨_, rfl, ?_⟩
   simp only [unique, toList_ofList, unique_idempotent]
 
+/-! ### merge: identity, idempotence and associativity read key by key (session 4) -/
+
+/-- merging an empty object in changes nothing (any `deep`). -/
+theorem merge_empty_right (d : Bool) (a : VMap) : mergeMaps d a .nil = a := by
+  simp [mergeMaps]
+
+/-- shallow `merge(a, a)` reads like `a` at every key. -/
+theorem merge_self_get_shallow (a : VMap) (ha : a.Sorted = true) (k : List Nat) :
+    (mergeMaps false a a).get k = a.get k := by
+  rw [merge_get_shallow a a ha k]
+  cases a.get k <;> rfl
+
+theorem mergeField_false (old : Option Value) (v : Value) : mergeField false old v = v := by
+  cases v <;> simp [mergeField]
+
+/-- shallow merge keeps the object invariant. -/
+theorem sorted_mergeMaps_shallow : (b to : VMap) → to.Sorted = true → b.Sorted = true →
+    (mergeMaps false to b).Sorted = true
+  | .nil, to, ht, _ => by simpa [mergeMaps] using ht
+  | .cons k v rest, to, ht, hb => by
+    simp only [VMap.Sorted, Bool.and_eq_true] at hb
+    simp only [mergeMaps, mergeField_false]
+    exact sorted_mergeMaps_shallow rest _ (VMap.sorted_insert to k v ht hb.1.1) hb.2
+
+/-- shallow merge is associative, key by key. -/
+theorem merge_assoc_get_shallow (a b c : VMap) (hb : b.Sorted = true) (hc : c.Sorted = true) (k : List Nat) :
+    (mergeMaps false (mergeMaps false a b) c).get k = (mergeMaps false a (mergeMaps false b c)).get k := by
+  rw [merge_get_shallow _ c hc k, merge_get_shallow a _ (sorted_mergeMaps_shallow c b hb hc) k, merge_get_shallow b c hc k,
+    merge_get_shallow a b hb k]
+  cases c.get k <;> cases b.get k <;> rfl
+
 end C28
